@@ -153,6 +153,15 @@ pub fn layouts(cname: &str, version: u16, thorough: bool) -> Vec<(Layout, bool)>
         let far: Vec<u32> = mids.iter().map(|&m| m + per - 1).collect();
         out.push((Layout { mini_perm: far, ..base.clone() }, true));
     }
+    // free mini sectors at the tail of the mini stream (common in files written elsewhere)
+    if lmini >= 1 {
+        for t in [1usize, 2, 9] {
+            out.push((Layout { trailing_free_minis: t, ..base.clone() }, true));
+            let mut r = mids.clone();
+            r.reverse();
+            out.push((Layout { trailing_free_minis: t, mini_perm: r, ..base.clone() }, true));
+        }
+    }
     // (iii) directory slots: all injective maps for <= 3 non-root entries over 2 directory sectors
     let n_nodes = root.count();
     let per_dir = synth::sector_len(version) as u32 / 128;
@@ -358,6 +367,21 @@ pub fn run_case(c: &LayoutCase) -> Vec<(String, String)> {
         }
     }
     let _ = strict_ok;
+    // refused calls on a deviated file must leave the bytes alone (C10 on non-canonical input)
+    if deviated && !c.ops.is_empty() {
+        let model = Model { root: root.clone(), pin: ops::pin_filetime() };
+        if let Ok(mut r) = Runner::from_image(c.layout.version, bytes.clone(), model) {
+            let o = Oracles { model: false, probes: false, refusal: true, spec: false, reopen: false };
+            for op in &c.ops {
+                let rep = r.step(op, &o, &[]);
+                for (class, msg) in rep.problems {
+                    if class == "refusal" || class == "panic" {
+                        problems.push((class, msg));
+                    }
+                }
+            }
+        }
+    }
     // mutate the foreign file under the E1 oracles
     if !deviated && problems.is_empty() && !c.ops.is_empty() {
         let model = Model { root: root.clone(), pin: ops::pin_filetime() };
@@ -646,6 +670,77 @@ pub fn explore_deviations(ctx: &Ctx, version: u16, thorough: bool) -> E2Stats {
                 report(ctx, c, p);
             });
         }
+    }
+    stats
+}
+
+/// C10 on non-canonical input: every refused call on every permissively
+/// accepted single-deviation file must leave the bytes unchanged.
+pub fn refusals_on_deviated(ctx: &Ctx, version: u16) -> E2Stats {
+    let mut stats = E2Stats { files: 0, cases: 0, steps: 0, rb_valid: 0 };
+    for cname in CONTENTS {
+        let root = content(cname, version).unwrap();
+        let layout = Layout { version, free_fill: 0, ..Default::default() };
+        let bytes = match synth::synth(&root, &layout) {
+            Ok(b) => b,
+            Err(_) => continue,
+        };
+        // the refused calls this content allows
+        let mut ops_: Vec<Op> = vec![Op::RemoveStream("/nope".into()), Op::SetStateBits("/nope".into(), 1), Op::SetClsid("/nope".into(), [1; 16]), Op::RemoveStorage("/".into()), Op::CreateStorage("/".into()), Op::CreateStream("/..".into())];
+        for (p, k) in root.all_paths() {
+            if p == "/" {
+                continue;
+            }
+            ops_.push(Op::CreateStorage(p.clone()));
+            ops_.push(Op::CreateNewStream(p.clone()));
+            match k {
+                Kind::Stream => {
+                    ops_.push(Op::SetClsid(p.clone(), [2; 16]));
+                    ops_.push(Op::RemoveStorage(p.clone()));
+                    ops_.push(Op::CreateStream(format!("{}/x", p)));
+                    ops_.push(Op::SetLen(format!("{}/x", p), 3));
+                }
+                _ => {
+                    ops_.push(Op::RemoveStream(p.clone()));
+                    ops_.push(Op::CreateStream(p.clone()));
+                    ops_.push(Op::SetLen(p.clone(), 3));
+                }
+            }
+        }
+        let mut devs = deviations(&bytes);
+        devs.push(("none".into(), vec![], false));
+        stats.files += devs.len() as u64;
+        let steps: u64 = devs
+            .par_iter()
+            .map(|(name, patches, _)| {
+                let mut b = bytes.clone();
+                apply_patches(&mut b, patches);
+                let mut n = 0u64;
+                for op in &ops_ {
+                    let model = Model { root: root.clone(), pin: ops::pin_filetime() };
+                    let mut r = match Runner::from_image(version, b.clone(), model) {
+                        Ok(r) => r,
+                        Err(_) => break, // not accepted permissively: C16's business
+                    };
+                    let o = Oracles { model: false, probes: false, refusal: true, spec: false, reopen: false };
+                    let rep = r.step(op, &o, &[]);
+                    n += 1;
+                    for (class, msg) in rep.problems {
+                        if class == "refusal" || class == "panic" {
+                            let c = LayoutCase { content: cname.to_string(), layout: layout.clone(), rb_valid: true, ops: vec![op.clone()], patches: patches.clone(), deviation: name.clone(), strict_must_reject: false };
+                            ctx.report(Violation {
+                                sig: format!("{}:on-deviated-file:{}", class, sig_norm(msg.split(" (no effect").next().unwrap_or(&msg)).chars().take(80).collect::<String>()),
+                                class,
+                                msg: format!("{} [content {} v{} deviation '{}']", msg, cname, version, name),
+                                replay: json!({"kind": "layout", "layout": c}),
+                            });
+                        }
+                    }
+                }
+                n
+            })
+            .sum();
+        stats.steps += steps;
     }
     stats
 }
